@@ -365,9 +365,20 @@ fn expressible(r: &Req) -> bool {
 #[derive(Debug)]
 enum Wire {
     Resp { version: u8, status: u16, headers: Vec<(Vec<u8>, Vec<u8>)>, body: Vec<u8> },
-    /// HTTP/1.1 only: as `Resp`, and the server closed the connection after it (`connection: close`)
-    Closed { version: u8, status: u16, headers: Vec<(Vec<u8>, Vec<u8>)>, body: Vec<u8> },
+    /// HTTP/1.1 only: as `Resp`, and the server closed the connection after it (`connection: close`).  `clean`: the end of
+    /// the connection was an orderly one — TLS: the close_notify alert arrived before the end of the TCP stream; plain TCP:
+    /// FIN, not a reset.  (A body that is delimited by the end of the connection never gets here with `clean = false`:
+    /// that is the failure "body not cleanly terminated", see `read_response`.)
+    Closed { version: u8, status: u16, headers: Vec<(Vec<u8>, Vec<u8>)>, body: Vec<u8>, clean: bool },
     Refused,
+}
+/// how an HTTP/1.1 connection ended, as its client sees it
+enum End {
+    /// TLS: close_notify, then the end of the TCP stream; plain TCP: FIN
+    Clean,
+    /// TLS: the TCP stream ended (or failed) and no close_notify had arrived — the end is not authenticated, what came
+    /// before it may have been cut short by anyone on the path (RFC 8446 6.1); plain TCP: the connection was reset
+    Unclean(String),
 }
 /// After a response that says `connection: close` the server has to end the connection itself, at once: kvarn would
 /// otherwise only do so when its idle time-out (seconds) expires.  2.5 s is more than 2 s away from either.
@@ -390,8 +401,10 @@ fn x_wire(w: &Wire) -> X {
         Wire::Resp { version, status, headers, body } => {
             X::ok(X::L(vec![X::N(0), X::L(vec![X::n(*version), X::n(*status), x_headers(headers), X::b(body)])]))
         }
-        Wire::Closed { version, status, headers, body } => {
-            X::ok(X::L(vec![X::N(5), X::L(vec![X::n(*version), X::n(*status), x_headers(headers), X::b(body)])]))
+        // (N 5): the connection ended in an orderly way; (N 6): it ended without close_notify / by a reset, after a
+        // response that is complete without that end (HEAD, content-length)
+        Wire::Closed { version, status, headers, body, clean } => {
+            X::ok(X::L(vec![X::N(if *clean { 5 } else { 6 }), X::L(vec![X::n(*version), X::n(*status), x_headers(headers), X::b(body)])]))
         }
         Wire::Refused => X::ok(X::L(vec![X::N(3)])),
     }
@@ -508,12 +521,13 @@ async fn connect_tls(desc: Target, cfg: Arc<rustls::ClientConfig>, want_alpn: &[
 struct H1 {
     s: Box<dyn Io>,
     pending: Vec<u8>,
+    secure: bool,
 }
 impl H1 {
     async fn open(desc: impl Into<Target>, secure: bool) -> Result<H1, String> {
         let desc = desc.into();
         let s: Box<dyn Io> = if secure { Box::new(connect_tls(desc, tls().client_h1.clone(), b"http/1.1").await?) } else { Box::new(connect(desc).await?) };
-        Ok(H1 { s, pending: Vec::new() })
+        Ok(H1 { s, pending: Vec::new(), secure })
     }
     async fn fill(&mut self, buf: &mut Vec<u8>, what: &str) -> Result<(), String> {
         let mut tmp = [0u8; 8192];
@@ -572,14 +586,18 @@ impl H1 {
     }
     /// the rest of the connection after a response that said `connection: close`: everything up to the end of the
     /// connection, which the server has to bring about itself within `CLOSE_WITHIN` of its last byte
-    async fn read_to_close(&mut self, buf: &mut Vec<u8>) -> Result<(), String> {
+    ///
+    /// HOW it ended is part of the result: over TLS `read` returns 0 only after the peer's close_notify alert (rustls reports
+    /// the end of the TCP stream without it as the error "peer closed connection without sending TLS close_notify"); over
+    /// plain TCP 0 is the peer's FIN and an error is a reset.  The connection is gone either way, but only an orderly end
+    /// can delimit a body.
+    async fn read_to_close(&mut self, buf: &mut Vec<u8>) -> Result<End, String> {
         let mut tmp = [0u8; 8192];
         loop {
             match tokio::time::timeout(CLOSE_WITHIN, self.s.read(&mut tmp)).await {
-                Ok(Ok(0)) => return Ok(()),
+                Ok(Ok(0)) => return Ok(End::Clean),
                 Ok(Ok(n)) => buf.extend_from_slice(&tmp[..n]),
-                // (a TLS peer that goes away without close_notify, a reset: the connection is gone all the same)
-                Ok(Err(_)) => return Ok(()),
+                Ok(Err(e)) => return Ok(End::Unclean(e.to_string())),
                 Err(_) => return Err("the response said connection: close, but the server did not end the connection".into()),
             }
         }
@@ -630,7 +648,7 @@ impl H1 {
         let closing = headers.iter().any(|(n, v)| n == b"connection" && v.eq_ignore_ascii_case(b"close"));
         if closing {
             // the body ends with the connection, or after `content-length` bytes with nothing but the end behind them
-            self.read_to_close(&mut buf).await?;
+            let end = self.read_to_close(&mut buf).await?;
             let body = if head { Vec::new() } else { buf[head_end..].to_vec() };
             if head && buf.len() > head_end {
                 return Err(format!("{} bytes after the head of a HEAD answer", buf.len() - head_end));
@@ -640,7 +658,21 @@ impl H1 {
                     return Err(format!("content-length {n}, but {} bytes before the end of the connection", body.len()));
                 }
             }
-            return Ok(Wire::Closed { version, status, headers: canon_headers(headers), body });
+            // A body that nothing but the end of the connection delimits is complete only if that end is an orderly one:
+            // over TLS the close_notify alert must have arrived (a strict client — hyper, curl — reports anything else as a
+            // truncated body, as it cannot be told from an attack), over plain TCP the connection must not have been reset.
+            if let End::Unclean(e) = &end {
+                if !head && clen.is_none() {
+                    return Err(format!(
+                        "body not cleanly terminated: the response ({status}, connection: close, no content-length) is delimited by the end of the \
+                         connection, and the {} connection ended {} after {} body bytes ({e}) - the body cannot be told from a truncated one",
+                        if self.secure { "TLS" } else { "TCP" },
+                        if self.secure { "without close_notify" } else { "by a reset" },
+                        body.len()
+                    ));
+                }
+            }
+            return Ok(Wire::Closed { version, status, headers: canon_headers(headers), body, clean: matches!(end, End::Clean) });
         }
         let want = if head { 0 } else { clen.ok_or("no content-length")? };
         while buf.len() < head_end + want {
@@ -1418,6 +1450,69 @@ fn sbody(x: &X) -> X {
     out
 }
 
+// -------------------------------------------------------------------------------------------
+// the request-head limits of the two front ends
+// -------------------------------------------------------------------------------------------
+/// "proto.head": (L cfg request) -> (L h1 h2), each `(L)` = the request was not answered | `(L (N status))`.
+/// One request — to the sentinel page, which answers 200 whatever the request says — on a fresh HTTP/1.1 (TLS) connection and
+/// on a fresh HTTP/2 connection to identical fresh hosts.  The head the HTTP/1.1 client writes is
+/// `<method> <target> HTTP/1.1\r\nhost: localhost:8443\r\n` + `<name>: <value>\r\n` per field + `\r\n`; the header list of the
+/// HTTP/2 request is :method, :scheme = https, :authority = localhost:8443, :path and the same fields.
+/// Not answered = the server ended the connection / reset the stream without a response head (anything that is not
+/// harness trouble); a time-out is trouble, never "not answered".
+fn head_once(x: &X) -> X {
+    let Some([cfg, req]) = x.as_l() else { return X::bad() };
+    let Some(req) = parse_req(req) else { return X::bad() };
+    if !expressible(&req) || !req.body.is_empty() {
+        return X::L(vec![X::N(96)]);
+    }
+    let (Some(ba), Some(bb)) = (build(cfg), build(cfg)) else { return X::bad() };
+    let (da, db) = (descriptor(&ba, true), descriptor(&bb, true));
+    let out = rt().block_on(async move {
+        let r1 = async {
+            let mut h1 = H1::open(da, true).await.map_err(|e| format!("open: h1: {e}"))?;
+            h1.exchange(&req).await
+        }
+        .await;
+        let r2 = async {
+            let mut h2 = H2::open(db).await.map_err(|e| format!("open: h2: {e}"))?;
+            h2.exchange(&req).await
+        }
+        .await;
+        let mut out = Vec::new();
+        for (i, r) in [r1, r2].into_iter().enumerate() {
+            match r {
+                Ok(Wire::Resp { status, .. }) | Ok(Wire::Closed { status, .. }) => out.push(X::L(vec![X::n(status)])),
+                Ok(Wire::Refused) => out.push(X::L(vec![])),
+                Err(e) if is_trouble(&e) || e.contains("open:") => return fail(i, e),
+                Err(_) => out.push(X::L(vec![])),
+            }
+        }
+        X::L(out)
+    });
+    cleanup(&ba);
+    cleanup(&bb);
+    out
+}
+/// "not answered" is an outcome only when a second run with fresh hosts agrees
+fn head(x: &X) -> X {
+    let a = head_once(x);
+    let unanswered = |o: &X| o.as_l().map_or(false, |l| l.len() == 2 && l.iter().any(|e| e.as_l().map_or(false, |v| v.is_empty())));
+    if !unanswered(&a) {
+        return a;
+    }
+    std::thread::sleep(Duration::from_millis(40));
+    let b = head_once(x);
+    let (mut ta, mut tb) = (String::new(), String::new());
+    a.write(&mut ta);
+    b.write(&mut tb);
+    if ta == tb || tb.starts_with("(L (N 9") {
+        b
+    } else {
+        fail(0, "open: the outcome of this request is not stable".into())
+    }
+}
+
 pub fn dispatch(comp: &str, x: &X) -> Option<X> {
     Some(match comp {
         "proto.l4" => l4(x),
@@ -1429,6 +1524,7 @@ pub fn dispatch(comp: &str, x: &X) -> Option<X> {
         "proto.burst1" => burst(x, false, 1),
         "proto.body" => body(x),
         "proto.sbody" => sbody(x),
+        "proto.head" => head(x),
         "proto.alone" => alone(x, true),
         "proto.alone1" => alone(x, false),
         _ => return None,
